@@ -60,8 +60,8 @@ func DecodeRecord(r io.Reader) (RecordType, []byte, uint32, error) {
 	}
 
 	// Allocate buffer for type byte + payload.
-	buf := make([]byte, length)
-	if _, err := io.ReadFull(r, buf); err != nil {
+	buf, err := kv.ReadBounded(r, nil, int(length))
+	if err != nil {
 		if errors.Is(err, io.EOF) || errors.Is(err, io.ErrUnexpectedEOF) {
 			return 0, nil, 0, utils.ErrPartialRecord
 		}
